@@ -1,8 +1,19 @@
-(* C07 — no starvation (allocator half).  Statements only; proofs in
-   Proofs/AllocPolicyP.v.  The controller half (a release triggers a re-sync)
-   lives in the controller model. *)
+(* C07 - no starvation.
+   Allocator half (this section): what a reported allocation failure means.  In the
+   model the allocator's result is an input validated by [allocate_spec]; a failure
+   is admitted only if every candidate pool is classified [Nothing], and
+   C07_allocate_fails_iff_nothing_admissible / C07_frompool_fails_iff_nothing_admissible
+   show that this is exactly "no admissible list of addresses exists" in the
+   declarative sense.  That the IMPLEMENTATION's failures are of this kind is
+   established per run (its results must be admitted by the specification) and,
+   for the algorithm, by the transcription theorem C02_reference_allocator_refines_spec.
+   Controller half (further down): the re-sync discipline, and the statement itself
+   over whole histories (C07_quiescent_no_starvation).  "In the same settling
+   period" is covered as "whenever the reconciler has settled": that quiescence is
+   reached is NOT proved (no progress theorem for the retry loop of a full pass);
+   C01_oracle_exists_for_wellformed_pools shows every enabled step can be taken. *)
 From Coq Require Import List NArith.
-From Verif Require Import Model.Alloc Proofs.AllocP Proofs.AllocPolicyP.
+From Verif Require Import Model.Alloc Proofs.AllocP Proofs.AllocPolicyP Proofs.AllocCompleteP.
 
 (* Allocate may report failure only if no candidate pool (pinned to the service,
    or unpinned with auto-assignment) has any admissible offer: for every pool and
@@ -12,6 +23,20 @@ Theorem C07_allocate_fails_only_if_nothing_admissible : forall a s r,
   allocate_spec a s r None = true ->
   forall p ips, In p (pinned_pools (s_pools a) r ++ unpinned_pools (s_pools a)) -> offer_ok a s r p ips = false.
 Proof. exact allocate_complete. Qed.
+
+(* ... and that is exactly "no admissible assignment exists": a list of addresses of a
+   candidate pool that lie in the pool, are not avoided, are free or shareable for the
+   requester and have the families the request wants cannot exist when Allocate fails *)
+Theorem C07_allocate_fails_iff_nothing_admissible : forall a s r,
+  allocate_spec a s r None = true ->
+  forall p ips, In p (pinned_pools (s_pools a) r ++ unpinned_pools (s_pools a)) -> ~ admissible_offer a s r p ips.
+Proof. exact allocate_fails_iff_nothing_admissible. Qed.
+
+Theorem C07_frompool_fails_iff_nothing_admissible : forall a s r pn,
+  from_pool_spec a s r pn None = true ->
+  forall p, find_pool (s_pools a) pn = Some p -> compatible p r = true ->
+  forall ips, ~ admissible_offer a s r p ips.
+Proof. exact frompool_fails_iff_nothing_admissible. Qed.
 
 (* the scan of a pool is complete: "no free address of family f" means every
    address of the pool of that family is refused for this requester *)
